@@ -268,12 +268,11 @@ def _proto_tp(it, v):
         it.ctx.assume(ok(st.get_field(r, f)))
 
 
-c = contract(GR, "__convert_metric_definition", [])
+c = contract(GR, "__convert_metric_definition", [], coarse=True)
 c.param("metrics", VAL)
 c.result = FRESH("list")
 c.logged = "convert_metrics"
 c.modifies = lambda S_: []
-c.coarse = True
 
 c = contract(GR, "convert_response", ["C11", "C03"])
 c.param("response", LIST(P("obj", cls="proto", inv=False)))
